@@ -767,7 +767,10 @@ class ModelFeatures:
 
     def __repr__(self):
         # TODO : Remove default values
-        return mfl_stringify(self.mfl_statement_list())
+        statements = self.mfl_statement_list()
+        if self.allometry is not None:
+            statements.append(self.allometry)
+        return mfl_stringify(statements)
 
     def __sub__(self, other):
         def sub(lhs, rhs):
